@@ -475,7 +475,15 @@ def observe(g):
         st = build_expansion_state(flat, depth)
         for sep in (False, True):
             mer[(depth, sep)] = (dict(st), str(to_mermaid(flat, depth=depth, separate_outputs=sep)))
-    return {"tn": tn, "te": te, "T": T, "fnodes": fnodes, "fedges": fedges, "ext": ext, "nodesByState": meta["nodesByState"],
+    from hypergraph.viz._common import build_output_to_producer_map, build_param_to_consumer_map
+    maps = [({}, True, build_param_to_consumer_map(flat, {}, use_deepest=True), build_output_to_producer_map(flat, {}, use_deepest=True))]
+    if meta.get("param_to_consumer") != maps[0][2] or meta.get("output_to_producer") != maps[0][3]:
+        maps.append(({}, True, meta.get("param_to_consumer"), meta.get("output_to_producer")))
+    for key in meta["edgesByState"]:
+        stt, sep = parse_key(key)
+        if not sep:
+            maps.append((stt, False, build_param_to_consumer_map(flat, stt), build_output_to_producer_map(flat, stt)))
+    return {"tn": tn, "te": te, "T": T, "fnodes": fnodes, "fedges": fedges, "ext": ext, "maps": maps, "nodesByState": meta["nodesByState"],
             "edgesByState": meta["edgesByState"], "expandable": expandable, "mermaid": mer, "depth": maxd}
 
 
@@ -506,6 +514,12 @@ def emit_case(batch, i, g, ob):
     for (depth, sep), (st, _src) in ob["mermaid"].items():
         if not sep:
             batch.add(i, 13, "xstate_eqb", f"state_of_depth {depth}%nat $xp", c_list([f"({c_nid(N, x.split('/'))}, {c_bool(st.get(x, False))})" for x in ob["expandable"]]))
+    # 14 / 15: the consumer and producer maps by visibility (viz/_common.py) against VizMaps.consumers / producer
+    for (stt, deepest, p2c, o2p) in ob["maps"]:
+        real_c = c_list([f"({c_pos(N(p))}, {c_list([c_nid(N, c.split('/')) for c in cs])})" for p, cs in (p2c or {}).items()])
+        real_p = c_list([f"({c_pos(N(o))}, {c_nid(N, n.split('/'))})" for o, n in (o2p or {}).items()])
+        batch.add(i, 14, "Bool.eqb", f"consumer_map_ok (flatten_all $ts) {c_state(N, stt)} {c_bool(deepest)} {real_c}", "true")
+        batch.add(i, 15, "Bool.eqb", f"producer_map_ok (flatten_all $ts) {c_state(N, stt)} {c_bool(deepest)} {real_p}", "true")
     # 1: every interactive drawing
     tags = {}
     for k in keys:
@@ -534,7 +548,7 @@ FAMILIES = ["dag", "dag", "gated", "gated", "endgates", "emit", "loop", "loop_sy
 
 def run(ctx):
     rng = ctx.rng
-    batch = CoqBatch("C20", ["Base", "Viz"], shard=40, detail_limit=100000)
+    batch = CoqBatch("C20", ["Base", "Viz", "VizMaps"], shard=40, detail_limit=100000)
     cases, infos = [], {}
     dist = {"family": {}, "depth": {}, "renamed": 0, "rejected": 0, "states": 0, "mermaid": 0, "interactive": 0}
     target = ctx.n(260, 2500)
@@ -607,6 +621,9 @@ def run(ctx):
         elif code == 11:
             ctx.violation("oracle", "to_flat_graph's edges differ from the edges of the nesting levels (Viz.flat_edges)", case={"graph": g},
                           observed={"model": mv, "real": rlit})
+        elif code in (14, 15):
+            ctx.violation("correspondence", f"viz/_common.{'build_param_to_consumer_map' if code == 14 else 'build_output_to_producer_map'} differs from VizMaps "
+                          f"({mexp[:200]})", case={"graph": g})
         elif code == 12:
             ctx.violation("oracle", "the precomputed states are not exactly the valid expansion states (Viz.enum_states)", case={"graph": g},
                           observed={"model": mv, "real": rlit})
@@ -646,7 +663,7 @@ def replay(ctx, rp):
     if not g:
         print("replay file carries no graph")
         return
-    batch = CoqBatch("C20r", ["Base", "Viz"], shard=40)
+    batch = CoqBatch("C20r", ["Base", "Viz", "VizMaps"], shard=40)
     ob = observe(g)
     N, K, tags, meta = emit_case(batch, 0, g, ob)
     res = batch.run(timeout=600)
